@@ -104,10 +104,11 @@ collect() { # stage-name
     fi
     [ "$rc" = "0" ] && [ -n "$line" ] && continue
     # something went wrong in this shard: classify
-    if grep -q -E 'Undefined Behavior|error: unsupported operation|error: memory leaked|error: the evaluated program' "$log"; then
-      sig="$(grep -m1 -E 'Undefined Behavior|error: unsupported operation|error: memory leaked|error: the evaluated program' "$log" \
+    DIAG='error: Undefined Behavior|unsafe precondition\(s\) violated|error: unsupported operation|error: memory leaked|error: abnormal termination|error: the evaluated program|error: deadlock|error: post-monomorphization'
+    if grep -q -E "$DIAG" "$log"; then
+      sig="$(grep -m1 -E "$DIAG" "$log" \
               | sed -E 's/0x[0-9a-f]+/0x#/g; s/alloc[0-9]+/alloc#/g; s/<[0-9]+>/<#>/g; s/[0-9]+/#/g' | esc | cut -c1-160)"
-      det="$(grep -A12 -m1 -E 'Undefined Behavior|error: ' "$log" | esc)"
+      det="$(grep -B2 -A10 -m1 -E "$DIAG" "$log" | esc)"
       viol="$viol${viol:+,}{\"signature\":\"miri-diagnostic: $sig\",\"idx\":$((k * PER)),\"detail\":{\"shard\":$k,\"first_string\":$((k * PER)),\"log\":\"$det\"}}"
     elif grep -q -E '^(BAD-UTF8|PANIC|RUNAWAY) ' "$log"; then
       sig="$(grep -m1 -E '^(BAD-UTF8|PANIC|RUNAWAY) ' "$log" | cut -d' ' -f1)"
